@@ -466,6 +466,28 @@ theorem C05_expand_iff_graphB (T : Table) (top : RName) :
       have := (C05_graph_decides T top).mpr ((C05_representable_iff_graph T top).mp h')
       rw [h] at this; exact Bool.noConfusion this
 
+/-- **C05, the two reasons for a refusal.** For every rule table and root the refusal test fails exactly when
+(a) some rule reachable from the root through rule references is not defined (jsgf.c: "Undefined rule in RHS"),
+or (b) some rule `r` reachable from the root makes a reference to `s` elsewhere than in last position and `s`
+can come back to `r` (jsgf.c: "Only right-recursion is permitted").  The check compares the message the real
+compiler prints with these two clauses on every refused build. -/
+theorem C05_refused_iff_graph (T : Table) (root : RName) :
+    representable T root = false ↔
+      (∃ r, Reach T root r ∧ T.defined r = false) ∨ (∃ r s, Reach T root r ∧ Edge T r s false ∧ Reach T s r) := by
+  rw [← Bool.not_eq_true, C05_representable_iff_graph]
+  constructor
+  · intro h
+    by_cases h1 : ∀ r, Reach T root r → T.defined r = true
+    · refine .inr (Classical.byContradiction fun h2 => h ⟨h1, fun r s hr e hb => h2 ⟨r, s, hr, e, hb⟩⟩)
+    · obtain ⟨r, hr⟩ := Classical.not_forall.mp h1
+      have hr' := Classical.not_imp.mp hr
+      exact .inl ⟨r, hr'.1, by simpa using hr'.2⟩
+  · rintro (⟨r, hr, hd⟩ | ⟨r, s, hr, e, hb⟩) hG
+    · have := hG.1 r hr
+      rw [hd] at this
+      exact Bool.noConfusion this
+    · exact hG.2 r s hr e hb
+
 /-! ### non-vacuity: one grammar of every kind (surface syntax, desugared by the parser actions) -/
 
 private def sq1 (e : Exp) : Seq := .one 1 0 e
